@@ -251,6 +251,7 @@ func (s *mstate) step(o Op) (enabled bool, w want) {
 type istate struct {
 	im    *fsh.Impl
 	slots [nSlots]filesys.File
+	nbuf  int // buffers handed to the implementation so far (decides their shape)
 }
 
 // do applies the op to an implementation and compares with w; returns problem text.
@@ -268,7 +269,7 @@ func (is *istate) do(o Op, w want, check bool) string {
 				is.slots[w.slot] = f
 			}
 		case "Append":
-			buf := append([]byte(nil), fsh.Data[o.Data]...)
+			buf := callerBuf(fsh.Data[o.Data], &is.nbuf)
 			im.Append(is.slots[o.Slot], buf)
 			for i := range buf { // the caller may reuse its buffer
 				buf[i] ^= 0xFF
@@ -293,7 +294,7 @@ func (is *istate) do(o Op, w want, check bool) string {
 				problem = fmt.Sprintf("returned %v, reference %v", ok, w.ok)
 			}
 		case "AtomicCreate":
-			buf := append([]byte(nil), fsh.Data[o.Data]...)
+			buf := callerBuf(fsh.Data[o.Data], &is.nbuf)
 			im.AtomicCreate(o.D, o.N, buf)
 			for i := range buf {
 				buf[i] ^= 0xFF
@@ -335,6 +336,20 @@ func inNarrow(o Op) bool {
 
 var tmpRoot string
 var validated int64
+
+// callerBuf copies data into a buffer the caller owns: alternately with no spare capacity (len == cap, what
+// make([]byte, n) or a sub-slice up to the end of an array gives) and with spare capacity (what append gives)
+func callerBuf(data []byte, n *int) []byte {
+	*n++
+	if *n%2 == 1 {
+		b := make([]byte, len(data))
+		copy(b, data)
+		return b
+	}
+	b := make([]byte, len(data), len(data)+16)
+	copy(b, data)
+	return b
+}
 
 func apply(c cfg, path []int) bfs.Result {
 	ms := newM()
